@@ -121,8 +121,6 @@ CONSTRAINT Emit
 
 def epsalg_cases(tier):
     cfg = open(vlib.SPEC + '/MC_Wynn.cfg').read()
-    if tier != 'quick':
-        cfg = cfg.replace('KMaxTr = 2', 'KMaxTr = 3')
     r = vlib.tlc('MC_Wynn', cfg_text=cfg, tag='MC_Wynn', timeout=3000)
     if r.violated:
         raise vlib.MachineryError('MC_Wynn violates %s\n%s' % (r.violated, r.out[-1500:]))
@@ -219,6 +217,6 @@ def run(tier, rep):
                unfixed_design_counterexample=unfixed.violated, tlc=per,
                branch_kinds={k: sum(1 for t in traces for e in t['ev'] if e['kind'] == k) for k in ('first', 'all', 'any', 'none')})
     assum = ['DeaIndex over-approximates Dea: branch outcomes are arbitrary, indices exact; limexp 3..61',
-             'exact epsilon table only for k <= %d transients with small rational parameters (32-bit TLC integers); larger magnitudes through the homogeneity lemma' % (2 if tier == 'quick' else 3),
+             'exact epsilon table only for k <= %d transients with small rational parameters (32-bit TLC integers); larger magnitudes through the homogeneity lemma' % 3,
              'float comparison tolerance 1e-9 relative to the largest term']
     return cov, assum
